@@ -71,6 +71,11 @@ def entity_requires(ex, st, e):
     rec = st.get(e, "record")
     out = [("inv_cache:" + l, t) for (l, t) in ex.models.inv_cache(st)]
     out.append(("not-the-abstract-base", tm.ne(st.get(e, "__class__").sym, tm.app("base_cls", INT))))
+    if st.get(e, "__class__").symbase != "StructuredRecord":
+        # inv_structure: the class's pattern has three adjacent capture groups (checked for every kit literal and
+        # for the derived patterns of every qualifying enzyme: C04 shape obligations)
+        out.append(("inv_structure:three-adjacent-groups",
+                    tm.app("shape3", BOOL, tr_pattern(tm.app("structure", STR, st.get(e, "__class__").sym)))))
     if rec.kind == "CircularRecord":
         out += inv_crec(ex, st, rec)
     return out
@@ -99,6 +104,37 @@ def match_terms(ex, st, e):
     doubled = tm.TRUE if rec.kind == "CircularRecord" else tm.not_(linear)
     pat = tr_pattern(tm.app("structure", STR, st.get(e, "__class__").sym))
     return text, tm.slen(text), doubled, pat, linear
+
+
+def lm(pat, d, n):
+    """spec function: the leftmost start in [0,n) at which the pattern matches the one-turn window"""
+    return tm.app("lmstart", INT, pat, d, n)
+
+
+def lm_axiom(pat, d, n):
+    """least-number principle (trusted): if some start matches, lmstart is the least one"""
+    from pyvc.models import re_at
+    j, jj = tm.V("j", INT), tm.V("jj", INT)
+    some = tm.exists_range(j, 0, n, re_at(pat, d, j, n))
+    l = lm(pat, d, n)
+    return tm.implies(some, tm.and_(tm.le(0, l), tm.lt(l, n), re_at(pat, d, l, n),
+                                    tm.forall_range(jj, 0, l, tm.not_(re_at(pat, d, jj, n)))))
+
+
+def entity_terms(ex, st, e):
+    """closed forms of everything a structured record reports, as functions of (class, record) only"""
+    from pyvc.models import re_window
+    text, n, doubled, pat, linear = match_terms(ex, st, e)
+    d = regex_c._data_term(ex, st, None, doubled, text)
+    l = lm(pat, d, n)
+    w = re_window(d, l, tm.add(l, n))
+    ln = tm.app("re_len", INT, pat, w)
+
+    def span(i):
+        return (tm.add(l, tm.app("re_s0", INT, pat, w, tm.I(i))), tm.add(l, tm.app("re_s1", INT, pat, w, tm.I(i))))
+
+    return dict(text=text, n=n, d=d, dd=tm.concat(text, text), pat=pat, lm=l, w=w, len=ln, span=span,
+                axiom=lm_axiom(pat, d, n))
 
 
 class BaseMatch(Contract):
@@ -137,6 +173,9 @@ class BaseMatch(Contract):
         text, n, doubled, pat, linear = match_terms(ex, st, a["self"])
         return [("InvalidSequence", self._no_match(ex, st, a, n), None)]
 
+    def assumes(self, ex, st, a):
+        return [entity_terms(ex, st, a["self"])["axiom"]]
+
     def ensures(self, ex, pre, st, a, result):
         from pyvc.models import re_at, re_window
         text, n, doubled, pat, linear = match_terms(ex, pre, a["self"])
@@ -149,9 +188,11 @@ class BaseMatch(Contract):
         return [
             ("start-in-range", tm.and_(tm.le(0, start), tm.lt(start, n))),
             ("leftmost", self._no_match(ex, pre, a, start)),
+            ("start-is-the-leftmost-start", tm.eq(start, entity_terms(ex, pre, a["self"])["lm"])),
             ("pattern-of-own-class", tm.and_(tm.eq(st.get(m, "pat").t, pat), tm.eq(st.get(m, "w").t, w),
                                              re_at(pat, d, start, n))),
             ("at-most-one-turn", tm.and_(tm.le(0, ln), tm.le(ln, n))),
+            ("length-is-the-match-length", tm.eq(ln, tm.app("re_len", INT, pat, w))),
             ("linear-never-wraps", tm.implies(tm.not_(doubled), tm.le(tm.add(start, ln), n))),
             ("rec-is-own-record", tm.B(st.get(result, "rec") is pre.get(a["self"], "record"))),
         ] + [("inv_cache-preserved:" + l, t) for (l, t) in ex.models.inv_cache(st)]
